@@ -41,7 +41,7 @@ CLAIMS = {
             "7 C10", "function contracts + books lemma (Verus)"),
     "C14": ("Verus proves update_members asserts the admin before any write and returns diffs that form a chain of single-member writes with the true previous and new weight of exactly the touched addresses (ghost state sequence), that execute_update_members / update_membership emit exactly one MemberChangedHook message per registered hook carrying those diffs (none when nothing changed), and that UpdateAdmin/AddHook/RemoveHook are wired to the admin-checked cw-controllers functions (assumed contracts).",
             "7 C14", "function contracts + ghost diff chain + assumed cw-controllers contracts (Verus)"),
-    "C11": ("Verus proves whole-state step relations for every ics20 entry point that touches a channel balance: transfer (+amount, escrow attached or received via cw20 Receive), packet receive (voucher must carry the counterparty port/channel prefix, checked -amount, exactly one payout sub-message of the amount, reply on error), reply(Err) (+amount back), error ack / timeout (checked -amount, exactly one refund to the sender); lemmas give the per-(channel, denom) delta of each and that a reduction needs a covering balance, so payouts never exceed escrow. Real token holdings enter only through A4. parse_voucher_denom is verified against the assumed splitn semantics; Amount::from_parts / Amount::denom are assumed leaves (string code) with bounded Kani stand-ins in the thorough tier; migrate reconciles channel balances exactly for stored versions <= 0.13.0 and leaves them alone otherwise.",
+    "C11": ("Verus proves whole-state step relations for every ics20 entry point that touches a channel balance: transfer (+amount, escrow attached or received via cw20 Receive), packet receive (voucher must carry the counterparty port/channel prefix, checked -amount, exactly one payout sub-message of the amount, reply on error), reply(Err) (+amount back), error ack / timeout (checked -amount, exactly one refund to the sender); lemmas give the per-(channel, denom) delta of each and that a reduction needs a covering balance, so payouts never exceed escrow. Real token holdings enter only through A4. parse_voucher_denom is verified against the assumed splitn semantics; Amount::from_parts / Amount::denom are assumed leaves (string code) with bounded Kani stand-ins in the thorough tier; migrate reconciles channel balances exactly for stored versions <= 0.13.0 (v2::update_balances verified: refuses more than one channel, touches nothing but channel balances; v2::update_denom assumed) and leaves them alone otherwise.",
             "7 C11", "function contracts + per-channel accounting lemmas (Verus)"),
     "C12": ("Verus proves ibc_packet_receive never returns Err, that a success ack implies the full receive step and an error ack implies storage unchanged and no sub-message (fix 2af7d5b), that execute_transfer emits exactly one SendPacket carrying amount (<= u64::MAX), denom, true sender, receiver, memo and timeout = block time + requested/default seconds, and the exact balance deltas of ack/timeout/reply.",
             "7 C12", "function contracts on state and emitted messages (Verus)"),
